@@ -151,6 +151,12 @@ func Run(c *fw.Ctx) {
 // builders validated by the permitted-role pass of this (child) process
 var procValid map[string]bool
 
+// server shared by the cases of this (child) process
+var (
+	procEnv  *env
+	procEnvN int
+)
+
 type caseRun struct {
 	c      *fw.Ctx
 	cs     caseSpec
@@ -206,17 +212,37 @@ func runCase(c *fw.Ctx, data []byte) {
 		pprof.StartCPUProfile(f)
 		defer pprof.StopCPUProfile()
 	}
-	dir := filepath.Join(c.Scratch(), "srv")
-	os.MkdirAll(dir, 0o755)
-	e, err := startEnv(dir)
-	if err != nil {
-		c.Inconclusive("server start: " + err.Error())
-		return
+	// one server per child process, shared by its cases (starting one costs seconds of CPU: systemdb and
+	// defaultdb are opened with the default, large, store options); every case starts from a verified baseline
+	e := procEnv
+	if e != nil && cs.Mode != "concurrent" {
+		if err := e.baseline(); err != nil {
+			c.Note("shared server replaced: " + err.Error())
+			e.stop()
+			e, procEnv = nil, nil
+		}
 	}
-	defer e.stop()
-	if err := e.setup(); err != nil {
-		c.Inconclusive("server setup: " + err.Error())
-		return
+	if e == nil || cs.Mode == "concurrent" {
+		procEnvN++
+		dir := filepath.Join(filepath.Dir(c.Scratch()), fmt.Sprintf("srv%d", procEnvN))
+		os.MkdirAll(dir, 0o755)
+		var err error
+		e, err = startEnv(dir)
+		if err != nil {
+			c.Inconclusive("server start: " + err.Error())
+			return
+		}
+		if err := e.setup(); err != nil {
+			e.stop()
+			c.Inconclusive("server setup: " + err.Error())
+			return
+		}
+		c.Count("servers_started", 1)
+		if cs.Mode == "concurrent" {
+			defer func() { e.stop(); os.RemoveAll(dir) }()
+		} else {
+			procEnv = e
+		}
 	}
 	r := &caseRun{c: c, cs: cs, e: e, specs: buildSpecs(), valid: map[string]bool{}, served: map[string]map[string][]string{}, sigs: map[string]bool{}}
 	if cs.Mode == "concurrent" {
@@ -322,7 +348,28 @@ func runCase(c *fw.Ctx, data []byte) {
 		procValid = r.valid
 	}
 
-	// 2. the row of the matrix
+	// 2. the row of the matrix. A refused session is turned away before the handler looks at the selected
+	// database: with the own database every method is called; with the other selections the methods whose
+	// request names a database (it follows the selection), the first two unary and the first two streaming
+	// methods of every class, and the methods without a builder.
+	if refusedState(cs.State) && cs.Sel != "own" && cs.Only == "" {
+		var kept []methodInfo
+		n := map[string]int{}
+		for _, mi := range methods {
+			sp := r.specs[mi.Full]
+			if sp == nil || sp.explicit {
+				kept = append(kept, mi)
+				continue
+			}
+			k := fmt.Sprintf("%s/%v", sp.class, mi.ClientStr || mi.ServerStr)
+			if n[k] < 2 {
+				n[k]++
+				kept = append(kept, mi)
+			}
+		}
+		c.Count("cells_skipped_refused_other_selection", int64(len(methods)-len(kept)))
+		methods = kept
+	}
 	for _, mi := range methods {
 		r.cell(mi, r.specs[mi.Full], cs.Role, cs.Sel, cs.State, false)
 	}
